@@ -230,6 +230,14 @@ _ch_set = _core._PATCH_REGISTRATIONS.get(set)
 _ch_frozenset = _core._PATCH_REGISTRATIONS.get(frozenset)
 
 
+def _builtin_hashable(x, depth=0):
+    if x is None or type(x) in (str, int, bool, float, bytes):
+        return True
+    if type(x) in (tuple, frozenset) and depth < 4:
+        return all(_builtin_hashable(i, depth + 1) for i in x)
+    return False
+
+
 def _mk_setlike(orig_patch, native):
     def patched(*a):
         if len(a) == 1:
@@ -244,6 +252,23 @@ def _mk_setlike(orig_patch, native):
             return native()
         return orig_patch(*a)
     return patched
+
+
+# hash() of a concrete builtin value is the real (PYTHONHASHSEED=0) hash: classes such as
+# utils.graph.Node implement __hash__ as hash(self.key), and a symbolic result cannot be handed
+# back to the C implementation of set/dict ("proxy intolerance").
+_ch_hash = _core._PATCH_REGISTRATIONS.get(hash)
+
+
+def _hash_patch(obj):
+    with NoTracing():
+        if _builtin_hashable(obj):
+            return hash(obj)
+    return _ch_hash(obj)
+
+
+if _ch_hash is not None:
+    _core._PATCH_REGISTRATIONS[hash] = _hash_patch
 
 
 if _ch_set is not None:
